@@ -335,7 +335,7 @@ func randTblSpec(rng *rand.Rand, unique bool) tblSpec {
 
 var workerChoices = []int{1, 2, 3, 4, 8, 16} // 2 and 3 sit on the inserter's "minus two, at least one" clamp
 var chunkChoices = []string{"none", "one", "two", "five", "every", "auto"}
-var delimChoices = []string{"", "", "|", ";", "\t"}
+var delimChoices = []string{"", "", "|", ";", "\t", "\u00a6"} // the last one is two bytes long in UTF-8
 
 func randIngCfg(rng *rand.Rand, rows int) ingCfg {
 	c := ingCfg{Workers: workerChoices[rng.Intn(len(workerChoices))], Chunks: chunkChoices[rng.Intn(len(chunkChoices))], Delim: delimChoices[rng.Intn(len(delimChoices))], Store: "mem", Via: "pkg"}
